@@ -30,6 +30,8 @@ def run(model, rep, tier):
     rep.explanation = __doc__.strip()
     from ._common import caches_for
     caches_for(model, rep, 'C01')
+    from ._common import scale_free_tests
+    scale_free_tests(model, rep, [('OnsagerCalc', 'VacancyMediated', 'Lij')])
     from ._common import inverse_map_placed
     inverse_map_placed(model, rep, [('OnsagerCalc', 'VacancyMediated', '__init__', 'invmap')])
     rep.not_decided = 'numerical equality of Lss/Lsv/L1vv with the exact one-solute/one-vacancy Markov chain; ' \
@@ -221,13 +223,39 @@ def _plumbing(model, rep, mod, ci):
             raise AnalysisError('anchor vanished: VacancyMediated.%s' % m)
     t2p, limb, p2b, lij, sym = (ci.methods[m] for m in ('tags2preene', 'makeLIMBpreene', 'preene2betafree', 'Lij',
                                                         '_symmetricandescaperates'))
-    # thermodict literal keys
-    td = None
+    # thermodict keys: the literal, constant-key stores and literal updates; any other way of adding keys (a loop over computed
+    # names, dict.fromkeys, ...) makes the key set unknown to this rule
+    td, dynamic = None, False
     for n in walk_local(t2p):
         if isinstance(n, ast.Assign) and unparse(n.targets[0]) == 'thermodict' and isinstance(n.value, ast.Dict):
-            td = {k.value for k in n.value.keys if isinstance(k, ast.Constant)}
+            td = (td or set()) | {k.value for k in n.value.keys if isinstance(k, ast.Constant)}
+            dynamic = dynamic or any(not isinstance(k, ast.Constant) for k in n.value.keys)
+        elif isinstance(n, ast.Assign) and unparse(n.targets[0]) == 'thermodict':
+            td = td or set()
+            dynamic = True
+        elif isinstance(n, ast.Assign):
+            for t in n.targets:
+                for x in ([t] if not isinstance(t, ast.Tuple) else t.elts):
+                    if isinstance(x, ast.Subscript) and unparse(x.value) == 'thermodict':
+                        if isinstance(x.slice, ast.Constant):
+                            td = (td or set()) | {x.slice.value}
+                        else:
+                            dynamic = True
+        elif isinstance(n, ast.Call) and unparse(n.func) in ('thermodict.update', 'thermodict.setdefault'):
+            a = n.args[0] if n.args else None
+            if isinstance(a, ast.Dict) and all(isinstance(k, ast.Constant) for k in a.keys):
+                td = (td or set()) | {k.value for k in a.keys}
+            elif isinstance(a, ast.Call) and unparse(a.func).endswith('makeLIMBpreene'):
+                pass
+            elif unparse(n.func) == 'thermodict.setdefault' and isinstance(a, ast.Constant):
+                td = (td or set()) | {a.value}
+            else:
+                dynamic = True
     if td is None:
         raise AnalysisError('tags2preene: thermodict literal not found')
+    if dynamic:
+        rep.undecided('tags2preene: thermodict receives keys that are computed at run time; the plumbing of its keys is not decided')
+        return
     lk = set()
     for n in walk_local(limb):
         if isinstance(n, ast.Return) and isinstance(n.value, ast.Dict):
